@@ -47,7 +47,8 @@ impl Engine for SysEngine {
         };
         let dispute = match self.id { "C15" => 30, "C02" | "C01" => 10, _ => 5 };
         let verified = match self.id { "C10" => 40, "C02" | "C04" => 8, _ => 4 };
-        let benef = match self.id { "C14" => 30, _ => 3 };
+        // (benef == 4 doubles as the marker that raises the replica-update cycle weight for the collateral properties)
+        let benef = match self.id { "C14" => 30, "C01" | "C03" => 4, _ => 3 };
         case_strategy_w(if tier == Tier::Quick { 60 } else { 100 }, bulk, long, dispute, verified, benef).boxed()
     }
     fn rule(&self) -> String {
